@@ -60,7 +60,29 @@ fn c15_serial_three_distinct() {
 #[kani::stub(alloc::fmt::format, no_format)]
 #[kani::stub(<std::os::fd::OwnedFd as core::ops::Drop>::drop, no_close)]
 fn c12_primary_header_total() {
-    let buf: [u8; 16] = kani::any();
+    header_body(kani::any())
+}
+
+/// per-byte-order cells (the endianness byte is concrete, the other 15 bytes symbolic)
+#[kani::proof]
+#[kani::unwind(10)]
+#[kani::stub(alloc::fmt::format, no_format)]
+#[kani::stub(<std::os::fd::OwnedFd as core::ops::Drop>::drop, no_close)]
+fn c12_primary_header_le() {
+    header_body(b'l')
+}
+
+#[kani::proof]
+#[kani::unwind(10)]
+#[kani::stub(alloc::fmt::format, no_format)]
+#[kani::stub(<std::os::fd::OwnedFd as core::ops::Drop>::drop, no_close)]
+fn c12_primary_header_be() {
+    header_body(b'B')
+}
+
+fn header_body(first: u8) {
+    let mut buf: [u8; 16] = kani::any();
+    buf[0] = first;
     let r = PrimaryHeader::read(&buf);
     match &r {
         Ok((h, fields_len)) => {
@@ -93,3 +115,69 @@ pub fn no_format(_: core::fmt::Arguments<'_>) -> String {
     String::new()
 }
 pub fn no_close(_: &mut std::os::fd::OwnedFd) {}
+
+// ---------------------------------------------------------------- C13 (fixed header part): unknown flag bits and message types
+//
+// A little-endian fixed header that is valid in every other respect (version 1, body length 0, serial 1, no fields)
+// with a fully symbolic TYPE byte, FLAGS byte and VERSION byte.
+fn small_header(ty: u8, flags: u8, version: u8) -> [u8; 16] {
+    [b'l', ty, flags, version, 0, 0, 0, 0, 1, 0, 0, 0, 0, 0, 0, 0]
+}
+
+/// What zbus implements today, decided exactly: accepted iff the type is one of the four known types and no unknown
+/// flag bit is set (the version byte is not checked at this level); on success type/flags/version equal the wire.
+#[kani::proof]
+#[kani::unwind(10)]
+#[kani::stub(alloc::fmt::format, no_format)]
+#[kani::stub(<std::os::fd::OwnedFd as core::ops::Drop>::drop, no_close)]
+fn c13_header_known_sets_exact() {
+    let ty: u8 = kani::any();
+    let flags: u8 = kani::any();
+    let version: u8 = kani::any();
+    let buf = small_header(ty, flags, version);
+    let r = PrimaryHeader::read(&buf);
+    let known = ty >= 1 && ty <= 4 && flags & !0x7 == 0;
+    match &r {
+        Ok((h, fl)) => {
+            kani::cover!(flags == 0x7, "all known flags set");
+            assert!(known, "header with an unknown type or flag accepted without being part of the documented behaviour");
+            assert!(h.msg_type() as u8 == ty && h.flags().bits() == flags && h.protocol_version() == version);
+            assert!(*fl == 0 && h.body_len() == 0 && h.serial_num().get() == 1);
+        }
+        Err(_) => {
+            kani::cover!(true, "rejected");
+            assert!(!known, "a header with a known type and known flags was rejected");
+        }
+    }
+    core::mem::forget(r);
+}
+
+/// The property itself (listed findings D8): unknown flag bits must be ignored and unknown types must not make the
+/// header undecodable.
+#[kani::proof]
+#[kani::unwind(10)]
+#[kani::stub(alloc::fmt::format, no_format)]
+#[kani::stub(<std::os::fd::OwnedFd as core::ops::Drop>::drop, no_close)]
+fn c13_unknown_flags_witness() {
+    let flags: u8 = kani::any();
+    kani::assume(flags & !0x7 != 0);
+    let buf = small_header(1, flags, 1);
+    let r = PrimaryHeader::read(&buf);
+    let ok = r.is_ok();
+    core::mem::forget(r);
+    assert!(ok, "a valid header with unknown flag bits is rejected instead of the bits being ignored");
+}
+
+#[kani::proof]
+#[kani::unwind(10)]
+#[kani::stub(alloc::fmt::format, no_format)]
+#[kani::stub(<std::os::fd::OwnedFd as core::ops::Drop>::drop, no_close)]
+fn c13_unknown_type_witness() {
+    let ty: u8 = kani::any();
+    kani::assume(ty >= 5);
+    let buf = small_header(ty, 0, 1);
+    let r = PrimaryHeader::read(&buf);
+    let ok = r.is_ok();
+    core::mem::forget(r);
+    assert!(ok, "a valid header with an unknown message type cannot be decoded (so the message cannot be skipped)");
+}
